@@ -232,6 +232,25 @@ def run_case(case, rec, mon=None):
         fs = _probes(case)
         use_np = case.get("np_scalar", False)
         int_types = [int, np.int64, np.int32, np.int16, np.uint16, np.int8, np.uint8]
+        # scale values handed to scale_to_hertz as narrow NumPy integers (an index into a table of whole-numbered scale values)
+        if name in ("linear", "mel", "bark") or (name == "octave" and params["low_hz"] >= 1e-10):  # (below 1e-10 the library floors low_hz: only the inverse pair is asked of such a scale)
+            for typed in (np.int8(100), np.int8(-100), np.uint8(5), np.uint8(250), np.int16(3), np.int16(20000), np.uint16(50000), np.int32(7)):
+                sv = float(typed)
+                try:
+                    want_hz = inv(sv)
+                except Exception:
+                    continue
+                if not (np.isfinite(want_hz) and abs(want_hz) < 1e12):
+                    continue
+                rec.count("integer_typed_scale_arguments")
+                try:
+                    got_hz = float(sc.scale_to_hertz(typed))
+                except Exception as e:
+                    rec.violation({"what": "%s.scale_to_hertz(%r) raised %r" % (name, typed, e), "check": "raise", "cls": name, "params": params, "arg": sv, "case": case})
+                    continue
+                if not abs(got_hz - want_hz) <= 1e-9 * max(1.0, abs(want_hz)):
+                    rec.violation({"what": "%s.scale_to_hertz(%r) = %r, published formula gives %r" % (name, typed, got_hz, want_hz), "check": "reference", "cls": name,
+                                   "params": params, "direction": "inv", "arg": sv, "case": case})
         # frequencies near the top of the narrow integer types (the domain reaches 1e5 Hz)
         for typed in (np.int16(30900), np.int16(32767), np.uint16(33000), np.uint16(64000), np.uint16(65535), np.int32(99999), np.uint8(255), np.int8(127)):
             if float(typed) >= (params["low_hz"] if name == "octave" else 0.0):
